@@ -92,7 +92,10 @@ def build_job(seed, idx, sc, vi, var):
     r = gen.rng(seed, "c08", idx, "variant", vi)
     ops = []
     proj = "proj"
-    for p, c in sorted(sc["srcs"].items()):
+    items = sorted(sc["srcs"].items())
+    if var.get("write_perm"):
+        r.shuffle(items)  # the order in which the files came into being (their relative mtimes) is not an input either
+    for p, c in items:
         ops.append({"op": "write", "path": proj + "/" + p, "content": c})
     cwd = {"project": proj, "parent": ".", "child": proj + "/src", "sibling": "elsewhere"}[var["cwd"]]
     if sc["kind"] == "vf":
@@ -167,14 +170,14 @@ def gen_case(seed, idx, pool, nvar):
     sc = gen_scenario(seed, idx)
     r = gen.rng(seed, "c08", idx, "vars")
     ref = {"hashseed": 0, "argv_perm": False, "readdir_seed": None, "cwd": "project", "build_dir": "default",
-           "glob": False, "abs_paths": False, "sched": None}
+           "glob": False, "abs_paths": False, "sched": None, "write_perm": False}
     variants = [ref]
     for vi in range(1, nvar + 1):
         variants.append({
             "hashseed": r.choice(pool), "argv_perm": r.random() < 0.8, "readdir_seed": r.randint(1, 1 << 30) if r.random() < 0.8 else None,
             "cwd": r.choice(["project", "project", "parent", "child", "sibling"]),
             "build_dir": r.choice(["default", "default", "absolute", "nested", "symlink"]),
-            "glob": r.random() < 0.5, "abs_paths": r.random() < 0.3, "sched": gen.sched(r),
+            "glob": r.random() < 0.5, "abs_paths": r.random() < 0.3, "sched": gen.sched(r), "write_perm": r.random() < 0.5,
         })
     jobs = [build_job(seed, idx, sc, vi, v) for vi, v in enumerate(variants)]
     return {"id": "c08-%d-%d" % (seed, idx), "jobs": jobs,
@@ -212,7 +215,7 @@ def judge(case, results):
         return out + [{"class": "discard", "detail": {"tail": (ref.get("steps_tail") or ref.get("driver_tail") or "")[-300:]}}]
     for vi, r in enumerate(invs[1:], 1):
         v = m["variants"][vi]
-        varied = ",".join(k for k in ("hashseed", "argv_perm", "readdir_seed", "cwd", "build_dir", "glob", "abs_paths")
+        varied = ",".join(k for k in ("hashseed", "argv_perm", "readdir_seed", "cwd", "build_dir", "glob", "abs_paths", "write_perm")
                           if v[k] != m["variants"][0][k]) + ",sched"
         if (r["rc"] == 0) != (ref["rc"] == 0):
             out.append({"class": "exit-status-varies", "detail": {"variant": vi, "varied": varied, "rc": [ref["rc"], r["rc"]],
@@ -271,7 +274,7 @@ def extra_coverage(cases, results):
             hs.add(v["hashseed"])
             for k in ("cwd", "build_dir"):
                 dims["%s=%s" % (k, v[k])] += 1
-            for k in ("argv_perm", "glob", "abs_paths"):
+            for k in ("argv_perm", "glob", "abs_paths", "write_perm"):
                 if v[k]:
                     dims[k] += 1
             if v["readdir_seed"] is not None:
